@@ -172,6 +172,14 @@ fn generate(rng: &mut Rng) -> ConnScenario {
         prelude: vec![],
         growth: None,
     };
+    // a returning player: the genuine cookie names the target of the earlier visit (one of today's candidates, or one that is gone)
+    if let (3, Some(sec)) = (sc.client.intent, &sc.cfg.secret)
+        && rng.chance(1, 2)
+    {
+        let id = Identity { name: "Returning".into(), uuid: 0x3e70, props: vec![] };
+        let earlier = if !targets.is_empty() && rng.chance(3, 4) { targets[rng.usize_below(targets.len())].id.clone() } else { "gone-since".to_string() };
+        sc.client.auth_cookie = Some(signed_cookie(sec, &cookie_json(sc.wall.base_s - 10, &sc.cfg.client_addr, &id, Some(&earlier))));
+    }
     zero_time_noise(rng, &mut sc);
     // back-pressure while routing: one Keep Alive is held back by the transport across the completion of a back-end call
     if rng.chance(1, 4) {
